@@ -461,6 +461,113 @@ func (r *run) signAll(s *ist, right bool) {
 	}
 }
 
+// oddPassphraseWallet imports a second wallet whose private passphrase contains blanks and
+// punctuation and requires every secret-requiring operation to accept exactly that passphrase.
+func (r *run) oddPassphraseWallet(k int, s *ist) {
+	const (
+		mnOdd   = "legal winner thank year wave sausage worth useful legal winner thank yellow"
+		passOdd = "pass word-9!? ~"
+	)
+	W := s.I.W
+	ws, err := W.ImportWalletWithMnemonic(&keystore.WalletParams{Mnemonic: mnOdd, PrivatePassphrase: []byte(passOdd), Remarks: "odd", AddressGapLimit: 2})
+	if err != nil {
+		r.errs = append(r.errs, err.Error())
+		return // an import that refuses such a passphrase creates no obligation
+	}
+	defer W.UseWallet(r.id)
+	if mn, _, err := W.GetMnemonic(ws.WalletID, passOdd); err != nil || mn != mnOdd {
+		r.fail("C05", "instance %d: wallet imported with passphrase %q: GetMnemonic with that passphrase = %q, %v", k, passOdd, mn, err)
+	}
+	if _, err := W.ExportWallet(ws.WalletID, passOdd); err != nil {
+		r.fail("C05", "instance %d: wallet imported with passphrase %q: ExportWallet with that passphrase failed: %v", k, passOdd, err)
+	}
+	if _, _, err := W.GetMnemonic(ws.WalletID, passOdd+"x"); err == nil {
+		r.fail("C05", "instance %d: wallet imported with passphrase %q: GetMnemonic accepted %q", k, passOdd, passOdd+"x")
+	}
+	if _, err := W.UseWallet(ws.WalletID); err != nil {
+		r.errs = append(r.errs, err.Error())
+		return // still importing: selecting it may be refused
+	}
+	if list, err := W.GetAllAddressesWithPubkey(); err == nil {
+		digest := sha256.Sum256([]byte("verif odd"))
+		for _, ad := range list {
+			if ad.PubKey == nil {
+				continue
+			}
+			sig, err := W.SignHash(ad.PubKey, digest[:], []byte(passOdd))
+			if err != nil {
+				r.fail("C05", "instance %d: wallet imported with passphrase %q: SignHash with that passphrase failed: %v", k, passOdd, err)
+			} else if !sig.Verify(digest[:], ad.PubKey) {
+				r.fail("C04", "instance %d: wallet imported with passphrase %q: signature does not verify", k, passOdd)
+			}
+			break
+		}
+	}
+}
+
+// pubPassScenario: "before and after restarts, public-passphrase changes" and "a refused
+// attempt neither unlocks nor alters anything" for the PUBLIC passphrase, on a separate
+// instance: a change on a still empty manager, then repeatedly a change that must be refused
+// (the new public passphrase equals a wallet's private passphrase) followed by the creation of
+// another wallet and a restart - the database must keep opening with the passphrase of the
+// last ACCEPTED change, and every wallet must be there.
+func (r *run) pubPassScenario() {
+	st := inst.NewMemStore()
+	open := func(pub string) (*inst.Inst, error) {
+		i, err := inst.OpenAt(st, r.n, uint32(r.m.O.Gap), pub, nil)
+		if err == nil {
+			i.W.VerifInitTaskChan()
+		}
+		return i, err
+	}
+	i, err := open(pubPass0)
+	if err != nil {
+		r.errs = append(r.errs, err.Error())
+		return
+	}
+	defer func() { i.CloseRaw() }()
+	change := func(from, to string) error {
+		return mwdb.Update(i.W.VerifDB(), func(tx mwdb.DBTransaction) error {
+			return i.W.VerifKeystoreManager().ChangePubPassphrase(tx, []byte(from), []byte(to), &keystore.DefaultScryptOptions)
+		})
+	}
+	cur := pubPass0
+	if err := change(cur, pubPass1); err == nil {
+		cur = pubPass1 // accepted on the empty manager
+	}
+	wallets := 0
+	for round := 0; round < 4; round++ {
+		priv := fmt.Sprintf("privpassR%d", round)
+		if _, _, _, err := i.W.CreateWallet(priv, "r", 128); err != nil {
+			r.fail("C05", "public-passphrase scenario: CreateWallet #%d failed: %v", round, err)
+			return
+		}
+		wallets++
+		// restart with the passphrase of the last accepted change
+		i.CloseRaw()
+		j, err := open(cur)
+		if err != nil {
+			r.fail("C05", "public-passphrase scenario: after %d wallet(s) the database no longer opens with the public passphrase of the last accepted change: %v", wallets, err)
+			// keep i valid for the deferred close
+			if k, e2 := open(pubPass0); e2 == nil {
+				i = k
+			} else if k, e2 := open(priv); e2 == nil {
+				i = k
+			}
+			return
+		}
+		i = j
+		if ws, err := i.W.Wallets(); err != nil || len(ws) != wallets {
+			r.fail("C05", "public-passphrase scenario: after restart %d wallet(s) are listed (err %v), %d were created", len(ws), err, wallets)
+			return
+		}
+		// a change that must be refused: the new public passphrase equals a private one
+		if err := change(cur, priv); err == nil {
+			cur = priv // (accepted: then it is simply the current one)
+		}
+	}
+}
+
 // ---- secrets ----
 
 func (r *run) collectSecrets() {
@@ -750,6 +857,13 @@ func (m *Model) Run(hist []string) *proto.Result {
 		s.unlocked = true
 		r.checkWrongPass(k, s)
 	}
+	// C04: a second unlock period in the same process - the keys are cleared (what SignRawTx
+	// does after every call), then every address signs again: the key derived the second time
+	// must still be the one the address commits to
+	for _, s := range r.insts {
+		s.I.W.VerifKeystoreManager().ClearPrivKey()
+		r.signAll(s, true)
+	}
 	// right passphrase still works for every secret-requiring read
 	for k, s := range r.insts {
 		if mn, _, err := s.I.W.GetMnemonic(r.id, Pass); err != nil || mn != r.mnem {
@@ -763,6 +877,15 @@ func (m *Model) Run(hist []string) *proto.Result {
 		} else {
 			r.scan(fmt.Sprintf("keystore exported by instance %d", k), []byte(j))
 		}
+	}
+	// C05: a wallet imported under a passphrase outside the character set CreateWallet asks
+	// for (imports only bound the length): the right passphrase must work for it as well
+	if len(hist) <= 2 {
+		r.oddPassphraseWallet(len(r.insts)-1, r.insts[len(r.insts)-1])
+	}
+	// C05: public-passphrase changes on a manager of its own (directed scenario, once per run)
+	if len(hist) == 1 {
+		r.pubPassScenario()
 	}
 	// C05: scans
 	for k, s := range r.insts {
